@@ -81,14 +81,16 @@ def tracker_engine(chk, quick):
     from checks import r2_common as r2
     rnd = random.Random(chk.seed)
     n = 6 if quick else 100
-    traces, binding = [], 0
+    traces, binding, gap_sensitive, R2KW = [], 0, 0, {}
     for i in range(n):
-        gaps = sorted(rnd.sample(range(1, 4), rnd.choice((1, 2))))
-        table = ",".join(f"{g}:{rnd.choice((0.2, 0.4, 0.7, 1.0))}" for g in gaps)
+        # 1..3 entries with pairwise different limits inside the range of distances at which pairs are still gated
+        # (a low IoU threshold keeps re-appearing objects gated): the limit that applies depends on the exact gap
+        gaps = sorted(rnd.sample(range(1, 4), rnd.choice((1, 2, 3))))
+        table = ",".join(f"{g}:{l}" for g, l in zip(gaps, rnd.sample((0.1, 0.2, 0.3, 0.5, 0.8), len(gaps))))
         kind = ("sort", "visual", "batchsort")[i % 3]
-        t = r2.record(chk, f"c20-r2-{i}", kind, chk.seed * 1000 + 500 + i, steps=150 if quick else 300, shards=1 + i % 3,
-                      metric="iou" if i % 2 == 0 else "maha", max_idle=3, objects=4, spread=(60, 120)[i % 2],
-                      constraints=table, extra=["--jump", "1"])
+        R2KW[i] = dict(steps=150 if quick else 300, shards=1 + i % 3, metric="iou" if i % 2 == 0 else "maha", max_idle=3, objects=4,
+                       spread=(60, 120)[i % 2], extra=["--jump", "1", "--thr", "0.1"])
+        t = r2.record(chk, f"c20-r2-{i}", kind, chk.seed * 1000 + 500 + i, constraints=table, **R2KW[i])
         st = r2.trace_stats(t)
         chk.cov["evaluations"] += st["predicts"]
         import json as _j
@@ -97,12 +99,16 @@ def tracker_engine(chk, quick):
         def lim(gap):
             a = [l for g, l in cons if g >= gap]
             return a[0] if a else 0
-        b = sum(1 for e in ev if e["ev"] == "predict" for i2, row in enumerate(e["c"]) for k, gap, d in row
-                if lim(gap) and d > lim(gap) and any(k == kk for kk, _ in e["w"][i2]))
-        binding += b
+        gated = [(gap, d) for e in ev if e["ev"] == "predict" for i2, row in enumerate(e["c"]) for k, gap, d in row
+                 if any(k == kk for kk, _ in e["w"][i2])]
+        binding += sum(1 for gap, d in gated if lim(gap) and d > lim(gap))
+        # gated pairs whose admission would differ if the table were read at the neighbouring gap
+        adm = lambda g, d: (not lim(g)) or d <= lim(g)
+        gap_sensitive += sum(1 for gap, d in gated if gap >= 1 and (adm(gap, d) != adm(gap - 1, d) or adm(gap, d) != adm(gap + 1, d)))
         traces.append(t)
     chk.cov["distinct_nontrivial"] += binding
     chk.cov["gated_pairs_excluded_by_a_binding_constraint"] = binding
+    chk.cov["gated_pairs_whose_admission_depends_on_the_exact_gap"] = gap_sensitive
     res = r2.validate_all(chk, traces, "C20")
     # "admitted exactly when ...": a constrained run rejected because an admissible gated pair was not used (the recorded
     # assignment is not optimal over the admitted pairs) is C20's business if the same history without any table is fine
@@ -110,8 +116,7 @@ def tracker_engine(chk, quick):
         if ok or "constraint" in why or not (why & {"optimal", "gate"}):
             continue
         kind = ("sort", "visual", "batchsort")[i % 3]
-        t0 = r2.record(chk, f"c20-r2-{i}-free", kind, chk.seed * 1000 + 500 + i, steps=150 if quick else 300, shards=1 + i % 3,
-                       metric="iou" if i % 2 == 0 else "maha", max_idle=3, objects=4, spread=(60, 120)[i % 2], extra=["--jump", "1"])
+        t0 = r2.record(chk, f"c20-r2-{i}-free", kind, chk.seed * 1000 + 500 + i, **R2KW[i])
         if r2.validate_all(chk, [t0], "none")[0][0]:
             chk.violation("c20:admissible-pair-not-used", {"engine": "r2-trace", "trace": str(traces[i]), "rejected": rej[:3000]})
     # non-binding table vs no table: identical records and ids
